@@ -78,6 +78,9 @@ class ClaytonCopula(LevyCopula):
         # sum_elmts = np.sum(np.absolute(us)**(-self.theta))
 
         factor = self.eta if sign_prod >= 0 else -(1.0 - self.eta)
+        if factor == 0:
+            return 0.0  # no mass on this orthant (also avoids inf * 0 when every argument is infinite)
+
         return 2 ** (2 - us.size) * (sum_elmts ** (-1.0 / self.theta)) * factor
 
     def conditional_distribution(self, eps: float, x: np.array) -> np.array:
